@@ -164,6 +164,10 @@ func (r *FnRun) checkPost(fr *Frame, st *State, res []Val) {
 		}
 	}
 	env := &specEnv{st: st, old: fr.old, vars: vars, pkg: fnPkgPath(fr.fn), oldTop: fr.old.top, fr: fr}
+	for _, gs := range ct.ExitGhost {
+		env.what = ct.Name + " exitghost " + gs.Src
+		r.ghostAssign(st, gs, env)
+	}
 	for _, cl := range ct.Ensures {
 		env.what = ct.Name + " ensures " + cl.Label
 		r.obligeClause("POST", cl.Label, cl.E, env, st)
